@@ -69,6 +69,11 @@ pub enum Strategy {
     DuplicateLayer,
     /// swap layers 0 and 1 in the proof
     SwapLayers,
+    /// commit honestly, then - knowing the positions - claim other values at the queried positions and send
+    /// first-layer rows that show those values, with one un-queried member of every row adjusted so that the
+    /// rows still fold to the committed next layer; the proof declares 2^`0` partitions (the openings carry the
+    /// honest Merkle paths, so nothing authenticates the forged rows)
+    ForgedFirstLayer(u8),
 }
 
 /// domain points of layer `depth`: offset^(k^depth) * (w^(k^depth))^i
@@ -204,6 +209,8 @@ pub struct SaidLayer<E: FieldElement> {
 pub struct Said<E: FieldElement> {
     pub layers: Vec<SaidLayer<E>>,
     pub remainder: Vec<El>,
+    /// log2 of the number of partitions the proof declares
+    pub partitions_exp: u8,
 }
 
 /// query phase: the proof for a given position list (the adversary sees the positions)
@@ -249,6 +256,32 @@ where
         if c.strategy == Strategy::TamperOpened(depth) {
             rows[0][0] = rows[0][0] + E::ONE;
         }
+        if let (Strategy::ForgedFirstLayer(_), 0) = (&c.strategy, depth) {
+            let row_len = cfg.n / cfg.k;
+            let (off, w, _) = layer_domain::<E::BaseField>(cfg, 0);
+            let p = ctx.p;
+            for (j, row) in opened.iter().zip(rows.iter_mut()) {
+                let queried: Vec<usize> = (0..cfg.k).filter(|m| positions.contains(&(j + m * row_len))).collect();
+                let free = (0..cfg.k).find(|m| !queried.contains(m))?;
+                // the fold of a row is linear in its members: coefficient of member m = fold of the m-th unit row
+                let xs: Vec<El> = (0..cfg.k).map(|m| [mulm(off, powm(w, (j + m * row_len) as u128, p), p), 0, 0]).collect();
+                let coef = |m: usize| -> El {
+                    let ys: Vec<El> = (0..cfg.k).map(|i| if i == m { Ctx::ONE } else { Ctx::ZERO }).collect();
+                    ctx.poly_eval(&ctx.poly_interpolate(&xs, &ys), &c.alphas[0])
+                };
+                let mut delta = Ctx::ZERO;
+                for m in queried.iter() {
+                    row[*m] = row[*m] + E::ONE;
+                    delta = ctx.add(&delta, &coef(*m));
+                }
+                let cf = coef(free);
+                if ctx.is_zero(&cf) {
+                    return None;
+                }
+                let adj = ctx.div(&delta, &cf);
+                row[free] = E::from_ref(&ctx.sub(&row[free].to_ref(), &adj));
+            }
+        }
         said.push(SaidLayer { from_layer: from, opened_positions: opened, rows, paths: proof.serialize_nodes() });
     }
     if c.strategy == Strategy::OmitLastLayer {
@@ -285,7 +318,8 @@ where
         },
         _ => c.committed_remainder.clone(),
     };
-    Some(Said { layers: said, remainder })
+    let partitions_exp = if let Strategy::ForgedFirstLayer(e) = c.strategy { e } else { 0 };
+    Some(Said { layers: said, remainder, partitions_exp })
 }
 
 /// FriProof wire format (see fri/src/proof.rs): layers (u8 count; per layer u32-prefixed value bytes and
@@ -313,7 +347,7 @@ where
     }
     out.extend((rem.len() as u16).to_le_bytes());
     out.extend(rem);
-    out.push(0);
+    out.push(said.partitions_exp);
     out
 }
 
